@@ -1857,6 +1857,7 @@ func lPushx(n *Nodis, conn *redis.Conn, cmd redis.Command) {
 func rPushx(n *Nodis, conn *redis.Conn, cmd redis.Command) {
 	if len(cmd.Args) < 2 {
 		conn.WriteError("RPUSHX requires at least two arguments")
+		return
 	}
 	execCommand(conn, func() {
 		key := cmd.Args[0]
@@ -2494,6 +2495,7 @@ func zCount(n *Nodis, conn *redis.Conn, cmd redis.Command) {
 func zRem(n *Nodis, conn *redis.Conn, cmd redis.Command) {
 	if len(cmd.Args) < 2 {
 		conn.WriteError("ZREM requires at least two arguments")
+		return
 	}
 	execCommand(conn, func() {
 		key := cmd.Args[0]
@@ -2504,6 +2506,7 @@ func zRem(n *Nodis, conn *redis.Conn, cmd redis.Command) {
 func zRemRangeByRank(n *Nodis, conn *redis.Conn, cmd redis.Command) {
 	if len(cmd.Args) < 3 {
 		conn.WriteError("ZREMRANGEBYRANK requires at least three arguments")
+		return
 	}
 	key := cmd.Args[0]
 	start, err := strconv.ParseInt(cmd.Args[1], 10, 64)
@@ -2524,6 +2527,7 @@ func zRemRangeByRank(n *Nodis, conn *redis.Conn, cmd redis.Command) {
 func zRemRangeByScore(n *Nodis, conn *redis.Conn, cmd redis.Command) {
 	if len(cmd.Args) < 3 {
 		conn.WriteError("ZREMRANGEBYSCORE requires at least three arguments")
+		return
 	}
 	key := cmd.Args[0]
 	var mode int
@@ -2625,6 +2629,7 @@ func zInterStore(n *Nodis, conn *redis.Conn, cmd redis.Command) {
 func zClear(n *Nodis, conn *redis.Conn, cmd redis.Command) {
 	if len(cmd.Args) == 0 {
 		conn.WriteError("ZCLEAR requires at least one argument")
+		return
 	}
 	execCommand(conn, func() {
 		key := cmd.Args[0]
@@ -2636,6 +2641,7 @@ func zClear(n *Nodis, conn *redis.Conn, cmd redis.Command) {
 func zExists(n *Nodis, conn *redis.Conn, cmd redis.Command) {
 	if len(cmd.Args) < 2 {
 		conn.WriteError("ZEXISTS requires at least two arguments")
+		return
 	}
 	execCommand(conn, func() {
 		key := cmd.Args[0]
